@@ -51,6 +51,9 @@ func main() {
 		// the validator set changes while the chain runs: validator 1 is re-powered after height 1 (in force from height 3),
 		// the Byzantine validator is removed after height 2 (in force from height 4)
 		{Cfg: mk("4x1-valset-change", one, netsim.Config{Byz: []int{3}, NoByzMenu: true, TargetHeight: 5, ValScript: map[uint64][]int64{1: {1, 3, 1, 1}, 2: {1, 3, 1, 0}}}), Bound: b - 1},
+		// the same with restarts of correct nodes (real WAL, real catch-up, LastCommit rebuilt from the seen commit) at
+		// heights whose validator set differs from the one that signed the previous block
+		{Cfg: mk("4x1-valset-change-restarts", one, netsim.Config{Byz: []int{3}, NoByzMenu: true, Restarts: true, TargetHeight: 5, ValScript: map[uint64][]int64{1: {1, 3, 1, 1}, 2: {1, 3, 1, 0}}}), Bound: b - 1},
 		{Cfg: mk("2111-byz-small", []int64{2, 1, 1, 1}, netsim.Config{Byz: []int{3}}), Bound: b - 1},
 		{Cfg: mk("3331-byz-small", []int64{3, 3, 3, 1}, netsim.Config{Byz: []int{3}}), Bound: b - 1},
 	}
